@@ -1240,5 +1240,100 @@ theorem config_components_not_terminated (c : Config α) : ComponentsNotTerminat
       · cases h
       · split at h <;> cases h
 
+/-! ### Non-vacuity: the four-vertex instance of `SearchTree.Example` under limits
+
+Unlimited, the schedule `[0, 1, 2, 3]` to target 3 performs 3 expansions, builds a 3-entry tree and
+labels the target 4. -/
+
+namespace Example
+
+open SearchTree.Example (inst)
+
+/-- the example instance with the limits of `m` -/
+def withTerm (m : TermM) : Inst ℚ := { inst with term := m.test }
+
+/-- error kind, or iterations, tree size and the label of vertex 3 -/
+def summary (r : Except ErrKind (SState ℚ)) : Option ErrKind × Nat × Nat × Option ℚ :=
+  match r with
+  | .ok s => (none, s.iters, s.solSize, s.g 3)
+  | .error k => (some k, 0, 0, none)
+
+theorem ok_of_summary {r : Except ErrKind (SState ℚ)} {a b : Nat} {c : Option ℚ}
+    (h : summary r = (none, a, b, c)) : ∃ s, r = .ok s ∧ s.iters = a ∧ s.solSize = b ∧ s.g 3 = c := by
+  cases r with
+  | error k => simp [summary] at h
+  | ok s =>
+    simp only [summary, Prod.mk.injEq, true_and] at h
+    exact ⟨s, rfl, h⟩
+
+-- iteration limit: 4 is enough, 3 stops the run at the loop head where the target would be popped
+example : summary (runAStar inst 0 (some 3) [0, 1, 2, 3]) = (none, 3, 3, some 4) := by
+  decide +kernel
+example : summary (runAStar (withTerm (.iters 4)) 0 (some 3) [0, 1, 2, 3]) = (none, 3, 3, some 4) := by
+  decide +kernel
+example : summary (runAStar (withTerm (.iters 3)) 0 (some 3) [0, 1, 2, 3]) =
+    (some (.terminated [.iterations]), 0, 0, none) := by decide +kernel
+-- size limit: the 3-entry tree passes `size 3`, not `size 2`; `size 0` passes the first loop head
+example : summary (runAStar (withTerm (.size 3)) 0 (some 3) [0, 1, 2, 3]) = (none, 3, 3, some 4) := by
+  decide +kernel
+example : summary (runAStar (withTerm (.size 2)) 0 (some 3) [0, 1, 2, 3]) =
+    (some (.terminated [.size]), 0, 0, none) := by decide +kernel
+-- runtime limit 10 ns checked every 2nd iteration, clock 4 ns (resp. 6 ns) per iteration
+example : summary (runAStar (withTerm (.runtime 10 2 0 4)) 0 (some 3) [0, 1, 2, 3]) =
+    (none, 3, 3, some 4) := by decide +kernel
+example : summary (runAStar (withTerm (.runtime 10 2 0 6)) 0 (some 3) [0, 1, 2, 3]) =
+    (some (.terminated [.runtime]), 0, 0, none) := by decide +kernel
+-- frequency 0, at any depth: the panic
+example : summary (runAStar (withTerm (.combined [.size 5, .combined [.iters 9, .runtime 5 0 0 6]]))
+    0 (some 3) [0, 1, 2, 3]) = (some (.panic "termination-frequency-zero"), 0, 0, none) := by
+  decide +kernel
+-- nested combination: every firing limit is named, in model order
+example : summary (runAStar (withTerm (.combined [.size 1, .combined [.iters 1, .runtime 5 1 0 6]]))
+    0 (some 3) [0, 1, 2, 3]) = (some (.terminated [.size, .iterations, .runtime]), 0, 0, none) := by
+  decide +kernel
+-- the `target == source` shortcut never consults the limits
+example : summary (runAStar (withTerm (.iters 0)) 0 (some 0) []) = (none, 0, 0, none) := by
+  decide +kernel
+
+/-- the hypotheses of `iterations_le_limit`, `size_le_limit_plus_degree`,
+`runtime_stops_at_next_check`, `limited_prefix` hold together on a nested model, the run returns,
+and the theorems give the bounds and the unlimited result -/
+example : ∃ s, runAStar (withTerm (.combined [.size 3, .combined [.iters 4, .runtime 10 2 0 4]]))
+      0 (some 3) [0, 1, 2, 3] = .ok s ∧
+    s.iters < 4 ∧ s.solSize ≤ 3 ∧ s.iters < nextCheck 2 3 ∧
+    runAStar { withTerm (.combined [.size 3, .combined [.iters 4, .runtime 10 2 0 4]]) with
+      term := fun _ _ => .ok () } 0 (some 3) [0, 1, 2, 3] = .ok s := by
+  have hsum : summary (runAStar
+      (withTerm (.combined [.size 3, .combined [.iters 4, .runtime 10 2 0 4]]))
+      0 (some 3) [0, 1, 2, 3]) = (none, 3, 3, some 4) := by decide +kernel
+  obtain ⟨s, hs, _⟩ := ok_of_summary hsum
+  have hI : (withTerm (.combined [.size 3, .combined [.iters 4, .runtime 10 2 0 4]])).term =
+      (TermM.combined [.size 3, .combined [.iters 4, .runtime 10 2 0 4]]).test := rfl
+  have hL := iterLimit_of_leaf hI (L := 4)
+    (Leaf.combined (m := .combined [.iters 4, .runtime 10 2 0 4]) (by simp)
+      (Leaf.combined (m := .iters 4) (by simp) (Leaf.iters 4)))
+  have hS := sizeLimit_of_leaf hI (S := 3) (Leaf.combined (m := .size 3) (by simp) (Leaf.size 3))
+  have hR := runtimeLimit_of_leaf hI (i₀ := 3)
+    (Leaf.combined (m := .combined [.iters 4, .runtime 10 2 0 4]) (by simp)
+      (Leaf.combined (m := .runtime 10 2 0 4) (by simp) (Leaf.runtime 10 2 0 4)))
+    (fun i hi => by omega)
+  exact ⟨s, hs, (iterations_le_limit hL hs).2 (by decide),
+    (size_le_limit_plus_degree hS (D := 3) (fun v => by
+      show (SearchTree.Example.out v).length ≤ 3
+      unfold SearchTree.Example.out
+      split <;> simp) hs).2,
+    (runtime_stops_at_next_check (by decide) hR hs).2 (by decide), limited_prefix _ hs⟩
+
+/-- `runAStar_take`: with `iters 2` only two schedule entries are ever consumed -/
+example : runAStar (withTerm (.iters 2)) 0 (some 3) [0, 1, 2, 3] =
+    runAStar (withTerm (.iters 2)) 0 (some 3) [0, 1] :=
+  runAStar_take (iterLimit_of_leaf rfl (Leaf.iters 2)) 0 (some 3) [0, 1, 2, 3]
+
+/-- the example instance's components never report `Terminated` -/
+example : ComponentsNotTerminated (withTerm (.iters 2)) :=
+  ⟨fun _ _ _ _ h => (by cases h), fun _ _ _ _ h => (by cases h), fun _ _ _ h => (by cases h)⟩
+
+end Example
+
 end SearchLimits
 end Compass
